@@ -20,11 +20,48 @@ import (
 
 type (
 	WaitGroup = sync.WaitGroup
-	Once      = sync.Once
-	Map       = sync.Map
 	Cond      = sync.Cond
 	Locker    = sync.Locker
 )
+
+// Once: Do is a critical section under the shim mutex, so that a thread that gives up control inside f
+// disables the other callers instead of blocking them on a real lock.
+type Once struct {
+	m    Mutex
+	done bool
+}
+
+func (o *Once) Do(f func()) {
+	if _, _, free := ctl(); free && o.done {
+		return
+	}
+	o.m.Lock()
+	defer o.m.Unlock()
+	if !o.done {
+		defer func() { o.done = true }()
+		f()
+	}
+}
+
+// Map: the real sync.Map with a scheduling point before every operation.
+type Map struct{ m sync.Map }
+
+func mapPoint() {
+	if e, t := self(); e != nil {
+		e.dispatch(t, "map")
+	}
+}
+
+func (m *Map) Load(k any) (any, bool)           { mapPoint(); return m.m.Load(k) }
+func (m *Map) Store(k, v any)                   { mapPoint(); m.m.Store(k, v) }
+func (m *Map) LoadOrStore(k, v any) (any, bool) { mapPoint(); return m.m.LoadOrStore(k, v) }
+func (m *Map) LoadAndDelete(k any) (any, bool)  { mapPoint(); return m.m.LoadAndDelete(k) }
+func (m *Map) Delete(k any)                     { mapPoint(); m.m.Delete(k) }
+func (m *Map) Swap(k, v any) (any, bool)        { mapPoint(); return m.m.Swap(k, v) }
+func (m *Map) CompareAndSwap(k, o, n any) bool  { mapPoint(); return m.m.CompareAndSwap(k, o, n) }
+func (m *Map) CompareAndDelete(k, o any) bool   { mapPoint(); return m.m.CompareAndDelete(k, o) }
+func (m *Map) Range(f func(k, v any) bool)      { mapPoint(); m.m.Range(f) }
+func (m *Map) Clear()                           { mapPoint(); m.m.Clear() }
 
 func NewCond(l Locker) *Cond                                   { return sync.NewCond(l) }
 func OnceFunc(f func()) func()                                 { return sync.OnceFunc(f) }
@@ -344,6 +381,10 @@ func Access(obj any, name string, write bool) {
 	}
 	t.vc[t.id]++
 }
+
+// W declares a write of the variable p points to (inserted by the instrumenter before assignments to package-level
+// variables and to fields of the Router: state that outlives a request and is shared by all of them).
+func W(p any, name string) { Access(p, name, true) }
 
 // ---------------------------------------------------------------------------
 // RWMutex / Mutex
